@@ -4,6 +4,7 @@ use std::collections::HashMap;
 use std::collections::HashSet;
 use std::iter;
 
+use itertools::Itertools;
 use thiserror::Error;
 
 pub(crate) use expr::Expr;
@@ -280,7 +281,10 @@ impl AggregateOperator for MultiGrouper {
     fn emit(&self) -> Aggregate {
         let mut columns = self.key_col_headers.to_vec();
         columns.extend(self.agg_col.iter().map(|(k, ..)| k.to_string()));
-        let data = self.state.iter().map(|(key_values, agg_map)| {
+        // Emit the groups in key order rather than in hash iteration order so that the table is
+        // the same on every run even when no sort follows.
+        let groups = self.state.iter().sorted_by(|l, r| l.0.cmp(r.0));
+        let data = groups.map(|(key_values, agg_map)| {
             let key_values = key_values.iter().cloned();
             let key_cols = self.key_col_headers.iter().map(|s| s.to_owned());
             let mut res_map = HashMap::with_capacity(key_cols.len() + agg_map.len());
